@@ -44,6 +44,8 @@ type event struct {
 	els   [][]byte
 	sidx  int
 	oidx  int
+	lsep  int // LastCodeSeparatorIdx
+	nops  int // NumOps
 }
 
 const kinds = "EeSsOoCcPpQqYN" // BeforeExecute AfterExecute BeforeStep AfterStep BeforeOpcode AfterOpcode BeforeScriptChange AfterScriptChange BeforePush AfterPush BeforePop AfterPop success error
@@ -54,6 +56,7 @@ type tracer struct {
 	scribble bool
 	errSeen  error
 	pcBad    string // first snapshot whose program counter names no instruction of its own Scripts
+	sepBad   string // first snapshot whose LastCodeSeparatorIdx does not name an executed OP_CODESEPARATOR of its current script
 	bytes    int    // volume of the copies held so far
 	over     bool   // the volume budget was exceeded: later events are counted, not copied (the case is discarded)
 }
@@ -89,7 +92,22 @@ func (t *tracer) on(kind byte, s *interpreter.State) {
 		t.events, t.kept = nil, nil
 		return
 	}
-	t.events = append(t.events, event{kind: kind, stack: cpAll(s.DataStack), alt: cpAll(s.AltStack), cond: append([]int{}, s.CondStack...), els: cpAll(s.ElseStack), sidx: s.ScriptIdx, oidx: s.OpcodeIdx})
+	t.events = append(t.events, event{kind: kind, stack: cpAll(s.DataStack), alt: cpAll(s.AltStack), cond: append([]int{}, s.CondStack...), els: cpAll(s.ElseStack), sidx: s.ScriptIdx, oidx: s.OpcodeIdx, lsep: s.LastCodeSeparatorIdx, nops: s.NumOps})
+	// (ninth round) LastCodeSeparatorIdx is documented by its name: a value above 0 is the index, in
+	// the snapshot's current script, of an OP_CODESEPARATOR the program counter has reached
+	if (kind == 'S' || kind == 'O' || kind == 'o' || kind == 's') && t.sepBad == "" && s.LastCodeSeparatorIdx != 0 && !s.IsFinished &&
+		s.ScriptIdx >= 0 && s.ScriptIdx < len(s.Scripts) {
+		sc := s.Scripts[s.ScriptIdx]
+		l := s.LastCodeSeparatorIdx
+		switch {
+		case l < 0 || l >= len(sc):
+			t.sepBad = fmt.Sprintf("event %d (%c): LastCodeSeparatorIdx %d, script %d has %d instructions (program counter %d:%d)", len(t.events)-1, kind, l, s.ScriptIdx, len(sc), s.ScriptIdx, s.OpcodeIdx)
+		case sc[l].Value() != 0xab:
+			t.sepBad = fmt.Sprintf("event %d (%c): LastCodeSeparatorIdx %d names opcode %#02x of script %d, not an OP_CODESEPARATOR (program counter %d:%d)", len(t.events)-1, kind, l, sc[l].Value(), s.ScriptIdx, s.ScriptIdx, s.OpcodeIdx)
+		case l > s.OpcodeIdx || (l == s.OpcodeIdx && kind != 'o'):
+			t.sepBad = fmt.Sprintf("event %d (%c): LastCodeSeparatorIdx %d is not behind the program counter %d:%d", len(t.events)-1, kind, l, s.ScriptIdx, s.OpcodeIdx)
+		}
+	}
 	// before a step and around an opcode the snapshot's program counter names the instruction
 	// concerned: it must exist in the snapshot's own script list, and State.Opcode() must return it
 	if (kind == 'S' || kind == 'O' || kind == 'o') && t.pcBad == "" {
@@ -340,7 +358,7 @@ func check(ctx *pbt.Ctx, c Case) error {
 	var r interp.Result
 	if c.Ref {
 		model := c.Ctx.Model(c.Unlock, c.Lock)
-		r = interp.VerifyScript(c.Unlock, c.Lock, flags, interp.TxChecker{Tx: model, Idx: 0, Amount: c.Ctx.Amount}, true, lim)
+		r = interp.VerifyScript(c.Unlock, c.Lock, flags, interp.TxChecker{Tx: model, Idx: c.Ctx.Index(), Amount: c.Ctx.Amount}, true, lim)
 		if r.BudgetHit {
 			ctx.Discard("over_budget")
 			return nil
@@ -516,6 +534,21 @@ func check(ctx *pbt.Ctx, c Case) error {
 	}
 	if rec.pcBad != "" {
 		return fmt.Errorf("snapshot names an instruction it does not contain: %s; %s", rec.pcBad, id)
+	}
+	if rec.sepBad != "" {
+		return fmt.Errorf("snapshot's separator index is not consistent with its own script and program counter: %s; %s", rec.sepBad, id)
+	}
+	// (ninth round) nothing executes between BeforeStep and BeforeExecuteOpcode of one step: the two
+	// snapshots read the same in every field recorded
+	for i := 0; i+1 < len(rec.events); i++ {
+		a, b := rec.events[i], rec.events[i+1]
+		if a.kind != 'S' || b.kind != 'O' {
+			continue
+		}
+		if !eqStacks(a.stack, b.stack) || !eqStacks(a.alt, b.alt) || !eqStacks(a.els, b.els) || fmt.Sprint(a.cond) != fmt.Sprint(b.cond) || a.sidx != b.sidx || a.oidx != b.oidx || a.lsep != b.lsep || a.nops != b.nops {
+			return fmt.Errorf("events %d/%d: BeforeStep and BeforeExecuteOpcode of one step differ although nothing ran between them: stack %x vs %x, alt %x vs %x, cond %v vs %v, pc %d:%d vs %d:%d, last separator %d vs %d, ops %d vs %d; %s",
+				i, i+1, a.stack, b.stack, a.alt, b.alt, a.cond, b.cond, a.sidx, a.oidx, b.sidx, b.oidx, a.lsep, b.lsep, a.nops, b.nops, id)
+		}
 	}
 	// (iii) lifecycle grammar; no events at all when validation fails before execution
 	seq := rec.seq()
